@@ -119,3 +119,85 @@ class C04(DimwiseCheck):
 
 
 CHECKS["C04"] = C04
+
+
+def gen_limit_ops(o, tier, nmax=3):
+    """driver operations through the documented stop mechanism (limits): run, then continue with larger limits"""
+    cands = [0, 3, 8, 15, 30, 60, 100, 160, 250, 400] if tier == "quick" else [0, 3, 8, 15, 30, 60, 100, 160, 250, 400, 700, 1000]
+    k = o.randint(1, nmax)
+    lims = sorted(o.sample(cands, k))
+    ops = [["run", {"max_evaluations": lims[0]}]]
+    for m in lims[1:]:
+        ops.append(["continue", {"max_evaluations": m}])
+    return ops
+
+
+class C05(DimwiseCheck):
+    pid = "C05"
+    runs = {"quick": 1200, "thorough": 15000}
+    budget_s = {"quick": 90.0, "thorough": 900.0}
+    fixed_prefix = 1
+    rule = ("schedule = strategy configuration + benefit answers + driver operations (run to a point limit, continue with larger limits, "
+            "1-3 stops per history, recalculate_frequently with small refinements_for_recalculate in a share of runs); at every stop the "
+            "reported value is compared with (1) the coefficient-weighted sum of component results recomputed by an independent composite "
+            "trapezoid on the reported point lists, (2) evaluate_final_combi() (twice) on a deep copy, (3) the same history run with "
+            "reevaluate_at_end=True, (5) sum w f over get_points_and_weights(). distinct_nontrivial counts distinct refined structures at which a stop was checked")
+    expected_probes = ["rebalancing", "new_lmax", "recalculating", "stop_checked", "continued"]
+
+    def gen(self, rk, tier, idx):
+        r = stream(rk, "cfg")
+        cfg = DS.gen_cfg(r, tier)
+        cfg["use_epoch"] = False
+        cfg["nnoise"] = r.choice([1, 2, 3])
+        cfg["max_intervals"] = 10 ** 6      # the point limits of the schedule bound the size here
+        cfg["max_points"] = 10 ** 6
+        return {"config": cfg, "ops": gen_limit_ops(stream(rk, "ops"), tier)}
+
+    def simplify(self, s):
+        for c in DS.simplify_cfg(s):
+            yield c
+        for i, op in enumerate(s["ops"]):
+            m = op[1]["max_evaluations"]
+            for v in (0, 8, 30, 100):
+                if v < m and (i == 0 or v > s["ops"][i - 1][1]["max_evaluations"]):
+                    n = copy.deepcopy(s); n["ops"][i][1]["max_evaluations"] = v; yield n
+
+    def drive(self, sched, ctx, reevaluate):
+        cfg = sched["config"]
+        sim = DS.DimwiseSim(cfg, sched["rk"], ctx, [])
+        sim.build()
+        orc = DS.ResultOracle(sim)
+        out = []
+        for i, op in enumerate(sched["ops"]):
+            if op[0] == "run":
+                ret = sim.perform(tol=-1.0, max_evaluations=op[1]["max_evaluations"], reevaluate_at_end=reevaluate)
+            else:
+                ctx.probe("continued")
+                ret = sim.cont(tol=-1.0, max_evaluations=op[1]["max_evaluations"])
+            ctx.state(sim.structure_key())
+            out.append((ret, sim, orc))
+            yield i, op, ret, sim, orc
+
+    def execute(self, sched, ctx):
+        import numpy as np
+        plain = []
+        for i, op, ret, sim, orc in self.drive(sched, ctx, False):
+            label = "%s#%d" % (op[0], i)
+            want, S, n = orc.at_stop(ret[3], label)
+            ctx.probe("stop_checked")
+            plain.append((np.array(ret[3], dtype=float), S, n, orc))
+        if "result" in ctx.tainted:
+            return
+        # (3) the same history with re-evaluation at the end of every driver call
+        ctx2 = ctx
+        for (i, op, ret, sim, orc), (rep, S, n, _) in zip(self.drive(sched, ctx2, True), plain):
+            ok, tol = orc.close(np.array(ret[3], dtype=float), rep, S, n)
+            ctx.fault("reevaluate_at_end")
+            if not ok:
+                ctx.violate("reevaluate_at_end_unchanged", orc.sig(stop="%s#%d" % (op[0], i)),
+                            "%s#%d: with reevaluate_at_end=True the driver returns %s, without %s (tol %.2e)" % (op[0], i, list(ret[3]), rep.tolist(), tol), taint="result")
+                return
+        ctx.ok("reevaluate_at_end_unchanged")
+
+
+CHECKS["C05"] = C05
